@@ -55,6 +55,17 @@ def limitsOp : List String → Option String
       (match Timeouts.verdict c { th := th, tb := none } 64 with
        | .timedOut k => pure s!"status=408 handler=0 closed=1"
        | _ => pure "status=0 handler=0 closed=0")
+  | ["to2", hS, bS, d1S, gapS, _] => do
+    let hdr ← hS.toNat?
+    let body ← bS.toNat?
+    let d1 ← d1S.toNat?
+    let gap ← gapS.toNat?
+    let c : Timeouts.TCfg := { hdr := hdr, body := body }
+    -- each request has its own clock (parser reset): a complete request that arrives `d` ms after the clock started
+    let one (d : Nat) : Bool := match Timeouts.verdict c { th := some d, tb := some d } 64 with | .timedOut _ => false | _ => true
+    if !one d1 then pure "s1=408 s2=0 handler=0"
+    else if !one gap then pure "s1=200 s2=408 handler=1"
+    else pure "s1=200 s2=200 handler=2"
   | _ => none
 
 end Drv
